@@ -544,25 +544,35 @@ def read_callsite(repo, unrec):
 
 
 def read_static_max(repo, unrec):
+    """level_filters.rs get_max_level_inner -> (rows [(feature, consulted only without debug assertions?, level rank)] in source order,
+    does a build without debug assertions that matches no release row FALL THROUGH to the max_level_* rows?).  A build that matches
+    no row at all gets TRACE.  Two shapes are read: the nested if-chain with a final `else { TRACE }` in the release half (no fall
+    through), and a release half made of early `return`s followed by the max_level_* chain (fall through)."""
     W = "level_filters.rs"
     src = read_src(repo, "tracing/src/level_filters.rs", unrec)
     bs = [squash(x) for x in fn_bodies(src, "get_max_level_inner")]
     if len(bs) != 1 or not re.search(r"pub\s+const\s+STATIC_MAX_LEVEL\s*:\s*LevelFilter\s*=\s*get_max_level_inner\(\)\s*;", src):
         unrec.append("%s: STATIC_MAX_LEVEL = get_max_level_inner() not recognised" % W)
-        return []
+        return [], False
     chain = r"((?:ifcfg!\(feature=\"\w+\"\)\{LevelFilter::\w+\}else)+)\{LevelFilter::TRACE\}"
+    rchain = r"((?:ifcfg!\(feature=\"\w+\"\)\{returnLevelFilter::\w+;\}(?:else)?)+)"
     m = re.fullmatch(r"ifcfg!\(not\(debug_assertions\)\)\{%s\}else%s" % (chain, chain), bs[0])
-    if not m:
+    m2 = re.fullmatch(r"ifcfg!\(not\(debug_assertions\)\)\{%s\}%s" % (rchain, chain), bs[0])
+    if m:
+        groups, ft = ((m.group(1), True), (m.group(2), False)), False
+    elif m2:
+        groups, ft = ((m2.group(1), True), (m2.group(2), False)), True
+    else:
         unrec.append("%s: get_max_level_inner: if-chain not recognised" % W)
-        return []
+        return [], False
     tbl = []
-    for grp, rel_only in ((m.group(1), True), (m.group(2), False)):
-        for f, lv in re.findall(r"ifcfg!\(feature=\"(\w+)\"\)\{LevelFilter::(\w+)\}else", grp):
+    for grp, rel_only in groups:
+        for f, lv in re.findall(r"ifcfg!\(feature=\"(\w+)\"\)\{(?:return)?LevelFilter::(\w+);?\}(?:else)?", grp):
             if lv not in LEVEL_RANK:
                 unrec.append("%s: unknown level %s" % (W, lv))
-                return []
+                return [], False
             tbl.append((f, rel_only, LEVEL_RANK[lv]))
-    return tbl
+    return tbl, ft
 
 
 # ------------------------------------------------------------------------------------------------
@@ -584,7 +594,7 @@ def shapes(repo):
     g.update(read_lib(repo, unrec_g))
     g.update(read_collect(repo, unrec_g))
     g.update(read_callsite(repo, unrec_g))
-    g["static"] = read_static_max(repo, unrec_g)
+    g["static"], g["static_ft"] = read_static_max(repo, unrec_g)
     fx = None
     quad = (d["slow"], d["current"], d["prior"], d["restore"])
     if quad == ("NoneUsesGlobal", "NoneUsesGlobal", "PriorIsOption", "RestoreAlways"):
@@ -647,7 +657,8 @@ def main(repo, _unused=None):
          "  g_cache_rebuild := %s;" % g["cache"],
          "  g_fold := %s;" % g["fold"],
          "  g_rebuild := %s;" % g["rebuild"],
-         "  g_static_max := %s |}." % coq_list("(\"%s\", %s, %d)" % (f, b(r), l) for f, r, l in g["static"]),
+         "  g_static_max := %s;" % coq_list("(\"%s\", %s, %d)" % (f, b(r), l) for f, r, l in g["static"]),
+         "  g_static_release_falls_through := %s |}." % b(g["static_ft"]),
          "",
          "(* shapes the translator could not recognise on this run (the pinned theorems need these lists empty):",
          "   dispatch.rs's default machinery (C02, and C01 through get_default), and everything else (C01) *)",
